@@ -9,6 +9,7 @@ from ..domains.affine import mkA
 from ..domains.arrays import ArrayDomain, Seq, Vec3
 from ..domains.homog import HP, HomogDomain, Lin, cs_form, offset_free, poly_degree, rebase, strip_phase, subst_src, symmetric_preprocessing
 from ..repo import calls_in, dotted, norm_src, walk_no_nested
+from ..match import Matcher, src as msrc
 from .common import kwarg, need_funcs
 from . import C05
 
@@ -180,8 +181,14 @@ def chain_clause(model, rep, funcs):
             good = isinstance(a0, ast.Call) and isinstance(a0.func, ast.Attribute) and a0.func.attr == "pre_transform" and a0.args and \
                 isinstance(a0.args[0], ast.BinOp) and isinstance(a0.args[0].op, ast.Mult)
             if good:
-                names = {n.id for n in ast.walk(a0.args[0]) if isinstance(n, ast.Name)}
-                good = bool(names & {"img", "subvolume"}) and bool(names & {"mask", "_mask"})
+                # operands by what they are bound to (parameters, the model's own mask, the mask paired with the template), not by their names
+                x = Matcher(f).expr(a0.args[0])
+                lnames = {n.id for n in ast.walk(x.left) if isinstance(n, ast.Name)}
+                rtxt = ast.unparse(x.right)
+                params = set(f.param_names())
+                good = bool(lnames & {"img", "subvolume"} & params) and (
+                    rtxt in ("mask", "__elem__(mask_list)") and (rtxt != "mask" or "mask" in params) or
+                    (rtxt.startswith("self._get_template_and_mask_input(") and rtxt.endswith(")[1]")))
             if not good:
                 ok = False
                 det = f"first argument of {callee_attr} is `{norm_src(a0)[:80] if a0 is not None else None}`"
